@@ -48,6 +48,23 @@ Proof.
 Qed.
 Print Assumptions C16_reassembly_interleaved.
 
+(* ... and this does not depend on the state being clean: blocks still kept for these system bytes from an attempt that was
+   never completed (a later block was refused, the sender starts over) are dropped when the first block of the message arrives *)
+Theorem C16_reassembly_after_abandoned_attempt : forall h data tr s,
+  let k := s_system h in
+  filter (fun b => (s_system (sb_hdr b) =? k)%Z) tr = split_blocks data h true ->
+  let n := length (split_blocks data h true) in
+  outs_of k tr (snd (feed s tr)) = repeat None (n - 1) ++ [Some (with_block h (Z.of_nat n) true, data)] /\
+  rs_lookup k (fst (feed s tr)) = None.
+Proof.
+  intros h data tr s k Hf n.
+  pose proof (reassembly_local k tr s) as L. destruct (feed s tr) as [s' os]. rewrite Hf in L.
+  pose proof (reassembly_single h data) as S. cbv zeta in S.
+  destruct (rs_lookup k s) as [old|]; [rewrite (reassembly_after_abandoned h data old) in L|]; rewrite S in L; destruct L as [L1 L2];
+    cbn [fst snd]; (split; [exact L2|exact L1]).
+Qed.
+Print Assumptions C16_reassembly_after_abandoned_attempt.
+
 (* corruption: a block with any single byte altered (length, header, data or checksum) is never accepted *)
 Theorem C16_corruption_detected : forall h data pos old nb,
   hdr_fields_ok h -> Forall (fun b => b < 256) data -> (length data <= 244)%nat ->
